@@ -64,6 +64,9 @@ func Replay(rec []int) *Tape { return &Tape{replay: true, in: rec} }
 // Replaying reports whether the tape replays a recording.
 func (t *Tape) Replaying() bool { return t.replay }
 
+// Exhausted reports whether a replaying tape has handed out its whole recording.
+func (t *Tape) Exhausted() bool { return t.replay && t.pos >= len(t.in) }
+
 // Int returns a choice in [0,n). n<=1 consumes nothing and returns 0.
 func (t *Tape) Int(n int) int {
 	if n <= 1 {
@@ -101,6 +104,8 @@ func (t *Tape) Force(n int, strategyValue int) int {
 				v = 0
 			}
 			v %= n
+		} else if strategyValue > 0 && strategyValue < n {
+			v = strategyValue // beyond the recording the caller's own choice stands (0 unless it says otherwise)
 		}
 		t.pos++
 	} else if v < 0 || v >= n {
